@@ -193,7 +193,7 @@ func (dec *tomlDecoder) decodeNode(tomlNode *toml.Node) (*CandidateNode, error) 
 
 }
 
-func (dec *tomlDecoder) Decode() (*CandidateNode, error) {
+func (dec *tomlDecoder) Decode() (decoded *CandidateNode, decodeError error) {
 	if dec.finished {
 		return nil, io.EOF
 	}
@@ -207,6 +207,9 @@ func (dec *tomlDecoder) Decode() (*CandidateNode, error) {
 			if !ok {
 				deferredError = fmt.Errorf("pkg: %v", r)
 			}
+			// the results are named so that the recovered panic is reported instead of (nil, nil)
+			decoded, decodeError = nil, fmt.Errorf("invalid TOML: %w", deferredError)
+			dec.finished = true
 		}
 	}()
 
